@@ -29,7 +29,7 @@ def plan(tier, seed):
     specs = []
     for tz in TZS:
         for _ in range(2 if q else 5):
-            specs.append({"kind": "tuples", "count": 180 if q else 2200, "env": {"TZ": tz}, "tz": tz})
+            specs.append({"kind": "tuples", "count": 600 if q else 8000, "env": {"TZ": tz}, "tz": tz})
     specs.append({"kind": "corrupt", "env": {"TZ": "UTC"}, "tz": "UTC"})
     return specs
 
